@@ -18,6 +18,35 @@ CHECKS = {
   note=TB + " Modelled not verified: that Encode applies this generator column-wise (C03). Jerasure closed form not proved "
        "in general (certificate per explored configuration). Leopard generators: see C04.",
   design="4/C01"),
+ "C02": dict(
+  technique="Lean 4 theorem: the modelled reconstruct algorithm equals its specification for every MDS generator (via proved Gaussian elimination)",
+  text="Proof: C02_mds - for every MDS generator over any field, every presence pattern, mode (Reconstruct / ReconstructData / "
+       "ReconstructSome with either mask length), shard length and content, the modelled algorithm (first d present rows, "
+       "invert, decode, re-encode requested parity) returns exactly the specification: ErrTooFewShards iff fewer than d present, "
+       "otherwise every filled shard is the original and present shards are untouched. C02_never_wrong / C02_any: for ANY "
+       "generator (PAR1, custom) success never carries wrong bytes. Tie: op-level correspondence of the real Reconstruct* calls "
+       "against L0 (and L1 for d<=24), exhaustive over erasure sets for small configurations.",
+  note=TB + " Modelled: nil/empty/empty-with-capacity all denote 'missing' (exercised by correspondence); the inversion cache "
+       "(C10) and the SIMD/chunked evaluation of encodeRow (C03/C07/C08) are assumed here.",
+  design="4/C02"),
+ "C03": dict(
+  technique="Lean 4 theorems: closed forms of every generator family + column-local linear encode; tables by kernel evaluation",
+  text="Proof: for all (d,p): default generator = Lagrange/Backblaze matrix (C03_default_entry, uniqueness C03_default_unique), "
+       "Cauchy = 1/(i xor j), PAR1 = (c+1)^r, XOR = 1, top square = identity; Encode's parity byte k = sum_c A[r][c]*data[c][k] "
+       "depends only on column k (C03_local), is linear (C03_linear), data untouched. Tie: generators of all six options through "
+       "Encode of unit vectors, and Encode on seeded data around every dispatch threshold, option sets and tails 0..63, against "
+       "encodeSpec evaluated with shift-and-reduce products.",
+  note=TB + " The dispatch (which kernel covers which byte range) is exercised by correspondence here and modelled in C07; "
+       "assembly kernels are tied by execution (C08).",
+  design="4/C03"),
+ "C06": dict(
+  technique="Lean 4 theorems: Verify-iff, single-byte flip detection from non-zero generator entries of MDS matrices",
+  text="Proof: C06_iff, C06_flip_parity, C06_flip_data with C06_mds_entry_ne_zero (every MDS generator has no zero entry, so any "
+       "single byte change in any shard at any offset is detected), excluded points p=0 and zero columns stated as theorems. Tie: "
+       "Verify on encoded sets with every (shard, offset) flipped for short shards (all SIMD tails) and boundary/random offsets "
+       "of large shards, all 255 deltas; shards hashed before/after.",
+  note=TB + " Matrix codec only in this check; Leopard and stream Verify are exercised in C04/C14.",
+  design="4/C06"),
  "C17": dict(
   technique="Lean 4 kernel evaluation (decide +kernel) of regenerated table literals against shift-and-reduce arithmetic",
   text="Proof: every entry of the seven static GF(2^8) tables regenerated from galois.go on every run (65,536 products, log/exp/inv, "
